@@ -338,6 +338,10 @@ def gen_options(rng, allow_inverse=True, allow_disable_comments=False, swarm=Tru
 
 def gen_namespaces(rng, shape_prefix_pressure=0.0):
     ns = dict(BASE_NS)
+    # the caller's dictionary does not always declare the vocabularies sheXer itself writes (rdfs:comment, xsd:, rdf:)
+    for k in ("http://www.w3.org/2000/01/rdf-schema#", "http://www.w3.org/XML/1998/namespace/", XSD, RDF_NS):
+        if rng.random() < 0.2:
+            del ns[k]
     if rng.random() < 0.3:
         ns[OTHER] = "oth"
     if rng.random() < 0.3:
